@@ -87,10 +87,12 @@ def lookup? : Sexp → Option Lookup
   | .list [.atom "discover"] => some .discover
   | _ => none
 
-def via? : Sexp → Option Lid
-  | .atom "g" => some .g
-  | .atom "d" => some .d
-  | .list [.atom "m", n] => n.str?.map .m
+/-- the context's loader and the topology: `e` = the dependency loader of the flat topology (global loader first member) -/
+def via? : Sexp → Option (Lid × Bool)
+  | .atom "g" => some (.g, false)
+  | .atom "d" => some (.d, false)
+  | .atom "e" => some (.d, true)
+  | .list [.atom "m", n] => n.str?.map fun m => (.m m, false)
   | _ => none
 
 def segLt : Path → Path → Bool
@@ -99,11 +101,11 @@ def segLt : Path → Path → Bool
   | _ :: _, [] => false
   | a :: as, b :: bs => if a < b then true else if b < a then false else segLt as bs
 
-def wellFormed (mods : List String) (files : List (Path × Body)) (via : Lid) : Bool :=
+def wellFormed (mods : List String) (files : List (Path × Body)) (via : Lid) (flat : Bool) : Bool :=
   mods.all (fun m => modName m && m ≠ "environment") && distinct mods &&
   (match via with
     | .m mod => mods.contains mod
-    | .d => !mods.isEmpty
+    | .d => flat || !mods.isEmpty
     | .g => true) &&
   files.all (fun f => !f.1.isEmpty && f.1.all fileSeg &&
     f.1 ≠ ["env"] && f.1 ≠ ["modules"] &&
@@ -150,20 +152,20 @@ def readsStr (s : St) : String :=
 
 def execTree (modsE filesE viaE lookupsE : Sexp) : String :=
   match strs? modsE, filesE, via? viaE, lookupsE with
-  | some mods, .list fes, some via, .list les =>
+  | some mods, .list fes, some (via, flat), .list les =>
     match fes.mapM file?, les.mapM lookup? with
     | some ofiles, some lookups =>
       match ofiles.mapM id with
       | none => "bad-tree"
       | some files =>
-        if !wellFormed mods files via then "bad-tree"
+        if !wellFormed mods files via flat then "bad-tree"
         else if lookups.any (fun l => match l with
             | .load none => true
             | .has none => true
             | _ => false) then "bad-tree"
         else
           let tree := files.mergeSort (fun a b => !(segLt b.1 a.1))
-          let cfg : Cfg := { mods := mods, tree := tree, via := via }
+          let cfg : Cfg := { mods := mods, tree := tree, via := via, flat := flat }
           match runLookups cfg {} lookups with
           | none => "bad-tree"
           | some (items, s) => " ; ".intercalate items ++ " | reads" ++ readsStr s
